@@ -301,7 +301,10 @@ def write_replay(f):
                         digest_size=5).hexdigest()
     p = os.path.join(d, '%s-%s.json' % (f['property'], h))
     with open(p, 'w') as fh:
-        json.dump(f, fh, indent=1, sort_keys=True)
+        # no sort_keys: the order of the keys of a dict inside a case can
+        # be part of the case (two dicts that are equal but print
+        # differently)
+        json.dump(f, fh, indent=1)
     return p
 
 
